@@ -667,6 +667,9 @@ def jobs(tier: str, seed: int):
     for o, n in pairs:
         for order in ("C", "F"):
             add("reshape", old_nd=o, new_nd=n, order=order, maxlen=(3 if o + n >= 5 else 4) if not thorough else (4 if o + n >= 6 else 5))
+    for o, n in [(2, 1), (1, 2)] + ([(2, 2), (3, 1)] if thorough else []):
+        for order in ("c", "f"):          # NumPy (and pytato's validation) accept lower-case spellings
+            add("reshape", old_nd=o, new_nd=n, order=order, maxlen=3)
     for o, n in [(2, 1), (1, 2), (2, 2)] + ([(3, 2), (2, 3)] if thorough else []):
         add("reshape", old_nd=o, new_nd=n, order="C", maxlen=4 if thorough else 3, infer=True)
         add("reshape", old_nd=o, new_nd=n, order="F", maxlen=4 if thorough else 3, infer=True)
